@@ -277,24 +277,32 @@ def check_malformed(ctx, als):
 
 
 def check_pickle(ctx, als):
-    """the pickle protocol itself (not expressible in Coq: the outcome is an exception)."""
+    """the pickle / copy protocols themselves (not expressible in Coq: the failure mode is an exception);
+    the restored object must be == the original, with the same vector and index."""
+    import copy
     import pickle
     from whatshap.core import Genotype
     for al in als:
-        ctx.count(("pickle", tuple(al)), nontrivial=len(set(al)) >= 2)
-        ctx.tally("genotype.pickle")
         g = Genotype(list(al))
-        try:
-            h = pickle.loads(pickle.dumps(g))
-            ok = bool(h == g) and list(h.as_vector()) == list(g.as_vector()) and h.get_index() == g.get_index()
-            what = f"pickle round trip of Genotype({list(al)}) gives {h}"
-        except Exception as e:  # noqa: BLE001 - any failure to restore is the finding
-            ok = False
-            what = (f"pickle.loads(pickle.dumps(Genotype({list(al)}))) raises {type(e).__name__}: {e} "
-                    "(state save/restore through the pickle protocol does not work)")
-        if not ok:
-            ctx.violation("genotype:pickle-cinit", what, {"kind": "pickle", "al": list(al)})
-            return False
+        routes = [(f"pickle protocol {pr}", (lambda pr=pr: pickle.loads(pickle.dumps(g, protocol=pr))))
+                  for pr in range(pickle.HIGHEST_PROTOCOL + 1)]
+        routes.append(("copy.copy", lambda: copy.copy(g)))
+        routes.append(("copy.deepcopy", lambda: copy.deepcopy(g)))
+        for name, fn in routes:
+            ctx.count(("pickle", tuple(al), name), nontrivial=len(set(al)) >= 2)
+            ctx.tally("genotype.pickle")
+            try:
+                h = fn()
+                ok = (bool(h == g) and not bool(h != g) and list(h.as_vector()) == list(g.as_vector())
+                      and h.get_index() == g.get_index() and h.get_ploidy() == g.get_ploidy() and h is not g)
+                what = f"{name} of Genotype({list(al)}) gives {h} (index {h.get_index()}), original index {g.get_index()}"
+            except Exception as e:  # noqa: BLE001 - any failure to restore is the finding
+                ok = False
+                what = (f"{name} of Genotype({list(al)}) raises {type(e).__name__}: {e} "
+                        "(state save/restore through the pickle protocol does not work)")
+            if not ok:
+                ctx.violation("genotype:pickle-cinit", what, {"kind": "pickle", "al": list(al)})
+                return False
     return True
 
 
@@ -379,7 +387,7 @@ def gen_random_edit(rng, n, maxlen):
     return out
 
 
-NONASCII = [("é", "è"), ("aé", "aè"), ("é", "e"), ("üü", "üö")]
+NONASCII = [("é", "è"), ("é", "a"), ("aé", "ab"), ("aé", "aè"), ("üü", "üö")]   # fixed probe set: str with a non-ASCII character
 
 
 def check_nonascii(ctx):
@@ -473,7 +481,10 @@ def run(ctx):
         p = rng.choice([rng.randint(0, 14), rng.randint(7, 14), 14])
         n = rng.choice([rng.randint(1, 16), 16])
         samp.append(([rng.randrange(n) for _ in range(p)], n))
+    import time
+    t0 = time.time()
     raw, failing, l2g = check_genotypes(ctx, corpus + g_inputs + samp, "all")
+    ctx.log(f"genotypes: {len(raw)} cases, {time.time()-t0:.0f}s")
     ctx.extra["genotypes_exhaustive"] = {"ploidy<=": PMAX, "alleles<=": NMAX,
                                          "multisets": sum(1 for p in range(PMAX + 1) for _ in multisets(p, NMAX))}
     for al, n, r in raw[:2]:
@@ -493,7 +504,9 @@ def run(ctx):
         i = rng.choice([rng.randrange(total), total - 1, rng.randrange(total)])
         u_inputs.append((i, p, n))
     u_inputs += [(77558759, 14, 16), (0, 14, 16), (77558758, 14, 16), (1, 14, 2), (15, 1, 16)]
+    t0 = time.time()
     rawu, failu, l2u = check_unindex(ctx, u_inputs, "all")
+    ctx.log(f"unindex: {len(rawu)} cases, {time.time()-t0:.0f}s")
     ctx.sample({"__setstate__": list(rawu[-1][:2]), "impl": rawu[-1][3]})
 
     # ---- ordering / equality: all ordered pairs of the small genotypes, incl. different ploidies
@@ -508,7 +521,9 @@ def run(ctx):
         rng.shuffle(b)
         pairs.append((a, b))
         pairs.append((b, a))
+    t0 = time.time()
     rawp, failp, l2p = check_pairs(ctx, pairs, "all")
+    ctx.log(f"pairs: {len(rawp)} cases, {time.time()-t0:.0f}s")
     ctx.extra["pairs_exhaustive"] = {"ploidy<=": pp, "alleles<=": pn, "genotypes": len(small), "ordered_pairs": len(small) ** 2}
 
     # ---- binomial coefficient within the domain used by the limits (n <= 29), plus the guards
@@ -530,7 +545,7 @@ def run(ctx):
             search_genotype(ctx)
 
     # ---- the pickle protocol
-    check_pickle(ctx, [[0, 1], [2, 0, 1], [], [15] * 14])
+    check_pickle(ctx, [[0, 1], [2, 0, 1], [], [15] * 14, [3, 3, 0, 7, 15]])
 
     # ---- edit distance: exhaustive small pairs x every band
     L = ctx.n(4, 5)
@@ -538,7 +553,9 @@ def run(ctx):
     bands = [None, -1, 0, 1, 2, 3, 4, 5, 6]
     triples = [(s, t, bands[1:] if (i + j) % 7 else bands, (i + j) % 5 == 0)
                for i, s in enumerate(strs) for j, t in enumerate(strs)]
+    t0 = time.time()
     rawe, faile, l2e = check_edit(ctx, triples, "exhaustive", shard=500)
+    ctx.log(f"edit exhaustive: {len(rawe)} pairs, {time.time()-t0:.0f}s")
     ctx.extra["edit_exhaustive"] = {"alphabet": ALPHA, "maxlen": L, "strings": len(strs), "ordered_pairs": len(triples),
                                     "bands": "-1..6 (+ default argument)"}
     ctx.exhaustive = True
@@ -547,7 +564,9 @@ def run(ctx):
                 ("GATTACA", "GCATGCU", [None, 0, 1, 2, 3, 4, 5]), ("kitten", "sitting", [None, 1, 2, 3, 4]),
                 ("A" * 40, "A" * 20 + "C" + "A" * 19, [None, 0, 1]), ("ACGT" * 10, "TGCA" * 10, [None, 5, 10, 20, 40])]
     rnd = gen_random_edit(rng, ctx.n(500, 12000), ctx.n(60, 120))
+    t0 = time.time()
     rawr, failr, l2r = check_edit(ctx, corpus_e + rnd, "random", fast=True, name="C19r", shard=200)
+    ctx.log(f"edit random: {len(rawr)} pairs, {time.time()-t0:.0f}s")
     ctx.sample({"edit_distance": [rawr[-1][0], rawr[-1][1]], "(maxdiff, result)": rawr[-1][2]})
     l2_all = l2e + l2r
     if l2_all:
